@@ -29,7 +29,8 @@ Distinct(s) == \A i, j \in 1..Len(s) : i # j => s[i] # s[j]
 \* ------------------------------------------------------------ well-formedness
 \* returns "ok" or the name of the first violated sub-clause
 WellFormedClause(v) ==
-  IF v.kind # "poly" THEN "ok"
+  IF v.kind = "opaque" /\ v.carrier = "malformed" THEN "wf_unreadable"     \* an object whose attributes cannot even be read
+  ELSE IF v.kind # "poly" THEN "ok"
   ELSE IF Len(v.names) < 1 \/ ~Distinct(v.names) THEN "wf_names"
   ELSE IF \E r \in 1..Len(v.rows) : Len(v.rows[r]) # Len(v.names) THEN "wf_width"
   ELSE IF \E r \in 1..Len(v.rows), j \in 1..Len(v.names) : v.rows[r][j] >= ExpClamp THEN "wf_exponent_out_of_range"
